@@ -9,7 +9,7 @@
 EXTENDS Sanitize, IOUtils
 Obs == JsonDeserialize(IOEnv.OBS_FILE)
 Units == Obs.units      \* [name, cfg, form, redacted]
-Runs == Obs.runs        \* [cfg, sanitize, routes : <<[route, name, k (slot), present : [console, curl, junit, vcr, har]]>>]
+Runs == Obs.runs        \* dead = sinks whose artifact is not well-formed / incomplete (not judged); [cfg, sanitize, dead, routes : <<[route, name, k (slot), present : [console, curl, junit, vcr, har]]>>]
 Hists == Obs.hists      \* [steps : <<[kind, op, name]>>, outs : <<[step, form, redacted]>>] - one process, re-configured on the way
 VARIABLES what, i
 jvars == <<vars, what, i>>
@@ -26,7 +26,7 @@ UnitVerdict == LET u == Units[i] IN
 RunVerdict == LET r == Runs[i] IN
               UNION {LET x == r.routes[k] IN
                      {<<x.route, s, IF Expected(x.route, s, x.name, r.sanitize, Cfg(r.cfg)) = "absent" THEN "leak" ELSE "missing", x.k>>
-                        : s \in {s \in Sinks : LET e == Expected(x.route, s, x.name, r.sanitize, Cfg(r.cfg)) IN
+                        : s \in {s \in Sinks \ {r.dead[d] : d \in 1..Len(r.dead)} : LET e == Expected(x.route, s, x.name, r.sanitize, Cfg(r.cfg)) IN
                                                (e = "absent" /\ x.present[s]) \/ (e = "present" /\ ~x.present[s])}}
                      : k \in 1..Len(r.routes)}
 (* every output of a history must be what the configuration current at that call says - nothing remembered from earlier calls *)
